@@ -1,6 +1,7 @@
 package interp
 
 import (
+	"crypto/sha256"
 	"fmt"
 	"os"
 	"path/filepath"
@@ -63,6 +64,7 @@ var nativeRegistry = map[string]interface{}{
 	"(time.Duration).String": time.Duration.String,
 	"(time.Duration).Seconds": time.Duration.Seconds,
 
+	"crypto/sha256.Sum256": sha256.Sum256,
 	"os.IsNotExist": os.IsNotExist,
 	"os.IsExist":    os.IsExist,
 	"path/filepath.Base":  filepath.Base,
